@@ -26,15 +26,15 @@ SCENARIOS = {
     "C18": ("gtsim.scenarios.boundary", {"prop": "C18"}),
 }
 
-RUNS = {  # property -> (quick workloads, thorough workloads); thorough aims at 15-20 min on 16 idle cores
-    "C04": (1200, 12000),
-    "C02": (700, 6000),
-    "C01": (1200, 12000),
-    "C19": (800, 6000),
-    "C11": (1500, 20000),
-    "C15": (1200, 10000),
-    "C12": (1000, 8000),
-    "C18": (400, 4000),
+RUNS = {  # property -> (quick workloads, thorough workloads); quick aims at 40-60 s, thorough at 15-25 min on 16 idle cores
+    "C04": (2000, 12000),
+    "C02": (1000, 6000),
+    "C01": (1600, 12000),
+    "C19": (1000, 6000),
+    "C11": (2500, 20000),
+    "C15": (1600, 10000),
+    "C12": (1200, 8000),
+    "C18": (800, 4000),
 }
 
 PER_RUN_TIMEOUT = {"quick": 600, "thorough": 1800}
